@@ -51,6 +51,7 @@ type Monitor struct {
 	Waitcond   *CExpr
 	Guarantees []Clause
 	Name       string
+	OwnsMaps   []string            // protected map-typed fields whose contents belong to the monitor
 	WaitCalls  []string            // interface methods on the lock object that release and re-acquire the monitor
 	Owns       map[string][]string // protected pointer field -> fields of the pointee that are protected with it
 	OwnsOrder  []string
@@ -97,6 +98,7 @@ type ContractDB struct {
 	Consts   []ConstClaim
 	Files    []string
 	Lemmas   []Lemma
+	ModSets  map[string][]*CExpr
 }
 
 type Lemma struct {
@@ -115,7 +117,7 @@ type ConstClaim struct {
 
 func NewContractDB() *ContractDB {
 	return &ContractDB{Funcs: map[string]*FuncContract{}, Monitors: map[string]*Monitor{}, Specs: map[string]*SpecFunc{},
-		Events: map[string]*EventDecl{}, TypeInvs: map[string]*TypeInv{}}
+		Events: map[string]*EventDecl{}, TypeInvs: map[string]*TypeInv{}, ModSets: map[string][]*CExpr{}}
 }
 
 var labelRe = regexp.MustCompile(`^\[([^\]]+)\]\s*`)
@@ -223,6 +225,11 @@ func (db *ContractDB) LoadFile(path, pkgPath string, assumed bool) error {
 				}
 				db.Funcs[fc.FullName()] = fc
 				curFn = fc
+			case "funcfield":
+				// contract assumed for every function value stored in a struct field: funcfield Type.field
+				fc := &FuncContract{Pkg: pkgPath, Key: "field:" + rest, Loops: map[string][]Clause{}, Flags: map[string]string{}, Assumed: true, File: l.file, Line: l.line}
+				db.Funcs[fc.FullName()] = fc
+				curFn = fc
 			case "monitor":
 				f := strings.Fields(rest)
 				if len(f) != 2 {
@@ -269,6 +276,23 @@ func (db *ContractDB) LoadFile(path, pkgPath string, assumed bool) error {
 					ev.When = e
 				}
 				db.Events[ev.Name] = ev
+			case "modset":
+				i := strings.Index(rest, "=")
+				if i < 0 {
+					return errf(l, "modset <name> = <targets>")
+				}
+				name := strings.TrimSpace(rest[:i])
+				for _, part := range splitTopLevel(rest[i+1:], ',') {
+					if ms, ok := db.ModSets[part]; ok {
+						db.ModSets[name] = append(db.ModSets[name], ms...)
+						continue
+					}
+					e, err := ParseCExpr(part)
+					if err != nil {
+						return errf(l, "%v", err)
+					}
+					db.ModSets[name] = append(db.ModSets[name], e)
+				}
 			case "const":
 				e, err := ParseCExpr(rest)
 				if err != nil {
@@ -314,6 +338,10 @@ func (db *ContractDB) LoadFile(path, pkgPath string, assumed bool) error {
 				curFn.HasModifies = true
 				if rest != "nothing" {
 					for _, part := range splitTopLevel(rest, ',') {
+						if ms, ok := db.ModSets[part]; ok {
+							curFn.Modifies = append(curFn.Modifies, ms...)
+							continue
+						}
 						e, err := ParseCExpr(part)
 						if err != nil {
 							return errf(l, "%v", err)
@@ -359,6 +387,8 @@ func (db *ContractDB) LoadFile(path, pkgPath string, assumed bool) error {
 				}
 			case "protects":
 				curMon.Protects = append(curMon.Protects, strings.Fields(strings.ReplaceAll(rest, ",", " "))...)
+			case "ownsmap":
+				curMon.OwnsMaps = append(curMon.OwnsMaps, strings.Fields(strings.ReplaceAll(rest, ",", " "))...)
 			case "waitcall":
 				curMon.WaitCalls = append(curMon.WaitCalls, strings.Fields(strings.ReplaceAll(rest, ",", " "))...)
 			case "owns":
